@@ -122,7 +122,7 @@ FACTORS = {
     "t_offset": [0.0, 0.25, -0.5], "sync": [False, True], "align": [False, True], "correct_scale": [False, True],
     "n_to_align": [-1, 6, 2], "align_origin": [False, True], "tf_side": [None, "left", "right", "both"],
     "tf_form": ["npy", "txt", "json"], "tf_kind": ["se3", "sim3"], "invert": [False, True], "propagate": [False, True],
-    "plane": [None, "xy", "xz", "yz"], "save": ["tum", "kitti", "both"], "t_max_diff": [0.01, 0.05],
+    "plane": [None, "xy", "xz", "yz"], "save": ["tum", "kitti", "both"], "t_max_diff": [0.01, 0.05, 0.0],
 }
 
 
@@ -227,7 +227,7 @@ def build_case(r, o):
 
 GRID_STEPS = [(3, 4, 0), (0, 3, 4), (4, 0, 3), (5, 0, 0), (0, 5, 0), (0, 0, 5), (1, 2, 2), (2, 1, 2), (2, 2, 1), (4, 3, 0)]
 GRID_FACTORS = dict(FACTORS, downsample=[None, 5, 6], motion_filter=[None, [1.25, 400.0], [0.0, 60.0], [2.5, 100.0]],
-                    t_max_diff=[0.01, 0.125], n_to_align=[-1, 6])
+                    t_max_diff=[0.01, 0.125, 0.0], n_to_align=[-1, 6])
 
 
 def grid_rot(r):
